@@ -1,5 +1,6 @@
 import CattrsModel.Sexp
 import CattrsModel.Threads.Model
+import CattrsModel.Threads.Replay
 /-!
 # Line-protocol operations of the Threads model (driver only; property C19)
 
@@ -13,8 +14,19 @@ import CattrsModel.Threads.Model
   `<roots …>` = `(<node index>…)` the top-level `get_*_hook` calls of that thread, in order
   `<how>` = `(seq <fuel>)`  every thread alone to completion, thread 0 first (`runSeq`), or
             `(sched (<tid>…) <fuel>)` the given schedule (`runSched`), then `runSeq` for whatever is left
+            `(upto (<item>…) <fuel>)` replay of an OBSERVED interleaving on the REFINED machine (`replayR`:
+                                     attribute slot, set identities, swap): `<item>` = `<tid>` — one per observed
+                                     access; that thread runs up to and including its next access (≤ fuel steps) —
+                                     or `(swap <tid> (<class>…))` = `already_generating.working_set = set(…)`.
+            `(sched …)` accepts `(swap …)` items as well (`runOps`).
   reply `(ok (<thread>…) (<event>…))`, `<thread>` = `(<finished 0|1> (<root> ok|rec|key)…)`,
   `<event>` = `(<tid> enter <node> ok|rec)` | `(<tid> exit <node> ok|key)` in global order.
+  For `upto` the reply has two more lists: `(<access>…)` — the access each replayed thread id performed:
+  `(<tid> lru <node> hit|miss)` | `(<tid> dir <node> hit|miss)` | `(<tid> enter …)` | `(<tid> exit …)` |
+  `(<tid> wdir <node>)` | `(<tid> clear)` | `(<tid> lruw <node>)` | `(<tid> none)` | `(<tid> swap)` — the expanded
+  operation list `(<tid> | (swap <tid> (…)) …)` (one per machine step), which `(sched … 0)` must reproduce on the
+  ABSTRACT machine (`replayR_is_ops`, `runOpsR_sim`) — per item the attribute slot of that thread afterwards,
+  `(<tid> absent)` | `(<tid> (<class>…))` — and the fault flag `0|1` (a `del` of an absent attribute).
 -/
 namespace CattrsModel.Threads
 open CattrsModel Sexp
@@ -59,6 +71,27 @@ def sexpOfEv (i : Nat) : Ev → Sexp
   | .enter n ok => .list [ofNat i, .atom "enter", ofNat n, .atom (if ok then "ok" else "rec")]
   | .exit n ok => .list [ofNat i, .atom "exit", ofNat n, .atom (if ok then "ok" else "key")]
 
+def sexpOfAcc (i : Nat) : Option Acc → Sexp
+  | none => .list [ofNat i, .atom "none"]
+  | some (.lruRead n hit) => .list [ofNat i, .atom "lru", ofNat n, .atom (if hit then "hit" else "miss")]
+  | some (.dirRead n hit) => .list [ofNat i, .atom "dir", ofNat n, .atom (if hit then "hit" else "miss")]
+  | some (.ws e) => sexpOfEv i e
+  | some (.dirWrite n) => .list [ofNat i, .atom "wdir", ofNat n]
+  | some .clear => .list [ofNat i, .atom "clear"]
+  | some (.lruWrite n) => .list [ofNat i, .atom "lruw", ofNat n]
+
+def sopOfSexp : Sexp → Option SOp
+  | .list [.atom "swap", t, .list ms] => do pure (.swap (← atomNat? t) (← ms.mapM atomNat?))
+  | t => do pure (.step (← atomNat? t))
+
+def sexpOfSOp : SOp → Sexp
+  | .step i => ofNat i
+  | .swap i P => .list [.atom "swap", ofNat i, .list (P.map ofNat)]
+
+def sexpOfSlot (i : Nat) : Option (List Nat) → Sexp
+  | none => .list [ofNat i, .atom "absent"]
+  | some ms => .list [ofNat i, .list (ms.map ofNat)]
+
 def sexpOfThread (th : Thread) : Sexp :=
   .list (ofBool th.finished :: th.results.map (fun (r, o) => .list [ofNat r, sexpOfOutcome o]))
 
@@ -76,13 +109,22 @@ def threadsHandle (op : String) (args : List Sexp) : Option Sexp :=
       let n := roots.length
       let s0 := GState.init (fun i => roots.getD i [])
       let ids := List.range n
-      let s ← match how with
-        | .list [.atom "seq", fuel] => do pure (runSeq sh G (← atomNat? fuel) ids s0)
-        | .list [.atom "sched", sched, fuel] => do
-            pure (runSeq sh G (← atomNat? fuel) ids (runSched sh G (← natList? sched) s0))
+      let (s, extra) ← match how with
+        | .list [.atom "seq", fuel] => do pure (runSeq sh G (← atomNat? fuel) ids s0, [])
+        | .list [.atom "sched", .list items, fuel] => do
+            pure (runSeq sh G (← atomNat? fuel) ids (runOps sh G (← items.mapM sopOfSexp) s0), [])
+        | .list [.atom "upto", .list items, fuel] => do
+            let items ← items.mapM sopOfSexp
+            let r := replayR G (← atomNat? fuel) items (RState.init (fun i => roots.getD i []))
+            let accs := (items.zip r.2.1).map (fun (it, (i, a, _)) =>
+              match it with
+              | .swap _ _ => Sexp.list [ofNat i, .atom "swap"]
+              | .step _ => sexpOfAcc i a)
+            pure (r.1.abs, [.list accs, .list (r.2.2.map sexpOfSOp),
+                            .list (r.2.1.map (fun (i, _, v) => sexpOfSlot i v)), ofBool r.1.fault])
         | _ => none
-      pure (.list [.atom "ok", .list (ids.map (fun i => sexpOfThread (s.threads i))),
-                   .list (s.trace.reverse.map (fun (i, e) => sexpOfEv i e))])
+      pure (.list ([.atom "ok", .list (ids.map (fun i => sexpOfThread (s.threads i))),
+                   .list (s.trace.reverse.map (fun (i, e) => sexpOfEv i e))] ++ extra))
   | _, _ => none
 
 end CattrsModel.Threads
